@@ -199,6 +199,54 @@ fn canaries() -> Vec<Case> {
     v
 }
 
+/// shapes the per-entry generator does not reach: archives above the size where bulk paths switch strategy
+/// (more than 1000 entries), and a hostile name written right after a benign sibling of the same directory
+/// (sorted chain listing: the sibling's first character sorts below '.'; explicit names: command-line order)
+fn shapes() -> Vec<Case> {
+    let mut v = vec![];
+    let hostile_dirs = ["..\\..\\c11_escdir\\deep\\note.txt".to_string(), format!("\\{SBX}\\abs_target\\newdir\\note.txt"), "a\\..\\..\\c11_escdir2\\n.txt".to_string()];
+    for (i, n) in [1001usize, 1500].into_iter().enumerate() {
+        for chain in [false, true] {
+            let mut files: Vec<Ent> = (0..n).map(|k| Ent { name: format!("bulk\\d{}\\f{k}.txt", k % 7), len: 3, seed: (k % 251) as u8 }).collect();
+            for (h, name) in hostile_dirs.iter().enumerate() {
+                files.insert(h * 333 + 5, ent(name, 40 + h as u8));
+            }
+            v.push(Case {
+                base: Arc { version: 1 + i as u8, lf: Lf::Generate, files },
+                patches: if chain { vec![Arc { version: 1, lf: Lf::Generate, files: vec![ent("p.txt", 2)] }] } else { vec![] },
+                preserve: true,
+                explicit: None,
+                skip_errors: true,
+                threads: [None, Some(3)][i],
+                file_type: None,
+                out_mode: OutMode::Rel,
+                excl_rewrites: 0,
+                label: format!("grid:shape:{n}-entries:{}", if chain { "chain" } else { "single" }),
+            });
+        }
+    }
+    let hostile = "Data\\..\\..\\..\\c11_sib_escaped.txt";
+    for (si, sibling) in ["Data\\-notes.txt", "Data\\ (draft).txt", "Data\\!first.txt", "DATA\\(x).bin", "Data\\zlast.txt"].into_iter().enumerate() {
+        for explicit in [false, true] {
+            for chain in [true, false] {
+                v.push(Case {
+                    base: Arc { version: 1 + (si % 4) as u8, lf: Lf::Generate, files: vec![ent("readme.txt", 1), ent(sibling, 2), ent(hostile, 3), ent("Data\\sub\\deep.txt", 4)] },
+                    patches: if chain { vec![Arc { version: 2, lf: Lf::Generate, files: vec![ent("Patch\\p.txt", 5)] }] } else { vec![] },
+                    preserve: true,
+                    explicit: explicit.then(|| vec![sibling.to_string(), hostile.to_string(), "readme.txt".into()]),
+                    skip_errors: si % 2 == 0,
+                    threads: None,
+                    file_type: None,
+                    out_mode: [OutMode::Rel, OutMode::Abs][si % 2],
+                    excl_rewrites: 0,
+                    label: format!("grid:shape:sibling-then-hostile:{}:{}", if chain { "chain" } else { "single" }, if explicit { "explicit" } else { "whole" }),
+                });
+            }
+        }
+    }
+    v
+}
+
 fn main() {
     let (check, _args) = Check::new("C11", "exploration");
     let exclude_wanted = std::env::var("VERIF_C11_NO_EXCLUDE").is_err();
@@ -281,6 +329,7 @@ fn main() {
 
     // ---- 2. deterministic grid (essential classes by construction)
     let mut g = grid();
+    g.extend(shapes());
     let mut excluded_cases = 0u64;
     let mut excluded_names = 0u64;
     if exclude {
